@@ -447,6 +447,44 @@ theorem quote_length (s : Bytes) : s.length + 2 ≤ (quote s).length ∧ (quote 
   have := body s
   simp [quote]; omega
 
+private theorem hexDigitUpper_range (n : Nat) (h : n < 16) :
+    (48 ≤ hexDigitUpper n ∧ hexDigitUpper n ≤ 57) ∨ (65 ≤ hexDigitUpper n ∧ hexDigitUpper n ≤ 70) := by
+  unfold hexDigitUpper; split <;> omega
+
+private theorem hexDigitUpper_inj (a b : Nat) (ha : a < 16) (hb : b < 16) (h : hexDigitUpper a = hexDigitUpper b) : a = b := by
+  unfold hexDigitUpper at h; split at h <;> split at h <;> omega
+
+/-- `uu.InvalidDigitError`: the text always ends with the code point `U+00XX` of the offending byte (followed by `)` when
+the byte is also shown as a character), and different bytes get different code points. -/
+theorem invalidDigit_names_code_point (c : Nat) :
+    ∃ front, invalidDigitText c = front ++ codePoint c ++ (if isGraphicByte c then [41] else []) := by
+  unfold invalidDigitText
+  cases isGraphicByte c
+  · exact ⟨[105, 110, 118, 97, 108, 105, 100, 32, 100, 105, 103, 105, 116, 32], by simp⟩
+  · exact ⟨[105, 110, 118, 97, 108, 105, 100, 32, 100, 105, 103, 105, 116, 32, 39] ++ utf8Latin1 c ++ [39, 32, 40], by simp [List.append_assoc]⟩
+
+theorem codePoint_injective (c d : Nat) (hc : c < 256) (hd : d < 256) (h : codePoint c = codePoint d) : c = d := by
+  simp [codePoint] at h
+  have h1 := hexDigitUpper_inj (c / 16) (d / 16) (by omega) (by omega) h.1
+  have h2 := hexDigitUpper_inj (c % 16) (d % 16) (by omega) (by omega) h.2
+  omega
+
+/-- for an ASCII byte the whole text is printable ASCII: a control byte is named by its code point only -/
+theorem invalidDigit_ascii_printable (c : Nat) (hc : c < 128) : ∀ x ∈ invalidDigitText c, 32 ≤ x ∧ x ≤ 126 := by
+  intro x hx
+  have r1 := hexDigitUpper_range (c / 16) (by omega)
+  have r2 := hexDigitUpper_range (c % 16) (by omega)
+  unfold invalidDigitText at hx
+  by_cases g : isGraphicByte c = true
+  · have hg : 32 ≤ c ∧ c ≤ 126 := by
+      simp [isGraphicByte] at g; omega
+    simp [g, utf8Latin1, hc, codePoint] at hx
+    omega
+  · simp [g, codePoint] at hx
+    omega
+
+example : invalidDigitText 103 = [105, 110, 118, 97, 108, 105, 100, 32, 100, 105, 103, 105, 116, 32, 39, 103, 39, 32, 40, 85, 43, 48, 48, 54, 55, 41] := by decide
+example : invalidDigitText 173 = [105, 110, 118, 97, 108, 105, 100, 32, 100, 105, 103, 105, 116, 32, 85, 43, 48, 48, 65, 68] := by decide
 example : quote [97, 34, 10, 1] = [34, 97, 92, 34, 92, 110, 92, 120, 48, 49, 34] := by decide
 example : message .size [80] [49, 32, 120] none =
     [115, 105, 122, 101, 46, 80, 58, 32, 112, 97, 114, 115, 105, 110, 103, 32, 34, 49, 32, 120, 34, 58, 32,
